@@ -256,6 +256,11 @@ impl IndexerHandle {
                         return None;
                     }
                 }
+                // Prefix mode: the script part of the key must cover the whole search prefix, otherwise trailing zero
+                // bytes of the searched args match the leading zero bytes of the big-endian block number of a shorter script.
+                if key.len() < prefix.len() + 16 {
+                    return None;
+                }
                 let tx_hash = packed::Byte32::from_slice(&value).expect("stored tx hash");
                 let index =
                     u32::from_be_bytes(key[key.len() - 4..].try_into().expect("stored index"));
@@ -474,6 +479,11 @@ impl IndexerHandle {
                         continue;
                     }
                 }
+                // Prefix mode: the script part of the key must cover the whole search prefix, otherwise trailing zero
+                // bytes of the searched args match the leading zero bytes of the big-endian block number of a shorter script.
+                if key.len() < prefix.len() + 17 {
+                    continue;
+                }
                 let tx_hash: H256 = packed::Byte32::from_slice(&value)
                     .expect("stored tx hash")
                     .into();
@@ -590,6 +600,11 @@ impl IndexerHandle {
                         if key.len() != prefix.len() + 17 {
                             return None;
                         }
+                    }
+                    // Prefix mode: the script part of the key must cover the whole search prefix, otherwise trailing zero
+                    // bytes of the searched args match the leading zero bytes of the big-endian block number of a shorter script.
+                    if key.len() < prefix.len() + 17 {
+                        return None;
                     }
                     let tx_hash = packed::Byte32::from_slice(&value).expect("stored tx hash");
                     let block_number = u64::from_be_bytes(
@@ -732,6 +747,11 @@ impl IndexerHandle {
                     if key.len() != prefix.len() + 16 {
                         return None;
                     }
+                }
+                // Prefix mode: the script part of the key must cover the whole search prefix, otherwise trailing zero
+                // bytes of the searched args match the leading zero bytes of the big-endian block number of a shorter script.
+                if key.len() < prefix.len() + 16 {
+                    return None;
                 }
                 let tx_hash = packed::Byte32::from_slice(value.as_ref()).expect("stored tx hash");
                 let index =
